@@ -137,6 +137,8 @@ def collect_contexts(ctx: Ctx, states):
                 out = super().handle(f)
                 if len(f) > 10 and f[10] == 0xB0 and f[9] == 2 and out:
                     out = out + [self.state_frame(ftype=5)]          # a state report behind the acknowledgement of the property command
+                if len(f) > 10 and f[10] == 0xB5 and out and getattr(self, "stray_report", False):
+                    out = [self.state_frame(ftype=5)] + out          # an unsolicited state report ahead of the capabilities reply
                 return out
         ac = Reporting(caps_pages=[CAPS_PLAIN if cname == "caps_plain" else CAPS_PROPS],
                        props={} if cname == "caps_plain" else {0x09: b"\x00", 0x0A: b"\x00", 0x48: b"\x64", 0xE3: b"\x00\x00", 0x42: b"\x01", 0x18: b"\x00"})
@@ -155,6 +157,16 @@ def collect_contexts(ctx: Ctx, states):
                         setattr(d, name, v)
                         pending.append(name)
                 apply_state(AC, d, s, rng)
+                requery = si % 4 == 2
+                if requery:
+                    # the capabilities are queried (again) between setting the state and applying it; the unit pushes a report of its CURRENT state
+                    # ahead of the capabilities reply - the request stands
+                    ac.stray_report = True
+                    try:
+                        await d.get_capabilities()
+                    except Exception:  # noqa: BLE001
+                        pass
+                    ac.stray_report = False
                 n0 = len(dev.rx)
                 ac.log.clear()
                 try:
@@ -165,7 +177,7 @@ def collect_contexts(ctx: Ctx, states):
                 frames = [r["frame"] for r in dev.rx[n0:] if r.get("ok") and r["frame"][10:11] == b"\x40"]
                 devst = [i for k, i in ac.log if k == "set_state"]
                 vectors.append({"req": s, "frame": B(frames[0]) if frames else [], "devstate": devst[0] if devst else {}, "exc": exc or "none", "n40": len(frames),
-                                "context": cname, "pending": pending})
+                                "context": cname + (", capabilities queried between set and apply with a stray state report" if requery else ""), "pending": pending})
                 if exc is None and si % 3 == 0 and cname == "props_pending":       # (a unit without custom fan speeds has raw speeds coerced by the poll: finding D12's mechanism)
                     # the unit is now in the requested state; the client polls it (state, and property values such as the unit's iECO switch) and the
                     # same request is applied once more: the command still carries the requested state
